@@ -1133,6 +1133,9 @@ class _Generator(Generator):
     def is_buffer_type(self, type_):
         return isinstance(type_, oer.OctetString)
 
+    def is_fixed_size_buffer_type(self, type_):
+        return type_.number_of_bytes is not None
+
     def generate_helpers(self, definitions):
         helpers = []
 
